@@ -17,6 +17,30 @@ def run(chk, st, tier):
     for k in range(n):
         sh = shapes[k % len(shapes)]
         cases.append(("f%d" % k, sh, Fo.gen_file_choice(rng), Fo.gen_batches(rng, sh, maxrecs=9 if sh.name != "flat24" else 5)))
+    # long level streams: bit-packed runs of 64..70 groups and long RLE runs need pages with hundreds of entries
+    small = [s for s in shapes if s.name in ("opt3", "boolopt")] or shapes[:1]
+    for k in range(8 if tier == "quick" else 80):
+        sh = small[k % len(small)]
+        nrec = rng.choice((520, 600, 700, 1100))
+        full = S.gen_value(rng, sh.model_fields(), maxlist=2, pnull=0.0, extreme=0.3)
+        empty = S.gen_value(rng, sh.model_fields(), maxlist=0, pnull=1.0, extreme=0.3)
+        kind = k % 4
+        if kind == 0:
+            recs = [full if i % 2 else empty for i in range(nrec)]          # no runs of equal levels: all bit-packed
+            ch = [2 * g + 1 for g in (69, 63, 64, 62)]
+        elif kind == 1:
+            recs = [full] * nrec                                            # one long run
+            ch = [2 * 9999, 2 * 63, 2 * 64]
+        elif kind == 2:
+            recs = [S.gen_value(rng, sh.model_fields(), maxlist=2, extreme=0.3) for _ in range(nrec)]
+            ch = [rng.choice((139, 127, 129, 2 * rng.randrange(200))) for _ in range(10)]
+        else:
+            recs = [full] * 64 + [empty] * 64 + [full] * 128 + [empty] * (nrec - 256)
+            ch = [2 * 63, 2 * 127, 2 * 63, 131, 2 * 500]
+        fc = {"cols": [{"codec": rng.randrange(3), "sizes": [rng.choice((1000, 600, 64))], "reps": ch, "defs": ch, "pad": rng.choice((0, 1, 3)),
+                        "stats": rng.randrange(3), "crc": 0, "fok": 1, "encstats": 0}],
+              "created_by": None, "kv": 0, "bsu": 0, "inject": None}
+        cases.append(("g%d" % k, sh, fc, [recs]))
     files, e2 = Fo.make_files(shapes, cases, "C04-write")
     if e2[0] != 0:
         chk.broke("machinery:C04", "foreign writer failed: %s" % (e2[1],))
